@@ -71,6 +71,15 @@ theorem runItems_paths (W : World) (requested : List (String × Sg)) (rec : RunR
         cases bindRun g.params [] [] 0 with
         | none => rfl
         | some env' => exact callExec_paths requested rec hrec st g env'
+    | callArgs f args kwargs rtA rtK line =>
+      simp only []
+      cases W.find f with
+      | none => rfl
+      | some g =>
+        simp only []
+        cases bindRun g.params (zipArgs results env args rtA) (zipKw results env kwargs rtK) 0 with
+        | none => rfl
+        | some env' => exact callExec_paths requested rec hrec st g env'
     | keep path f args kwargs rtA rtK line =>
       simp only []
       cases W.find f with
